@@ -462,7 +462,11 @@ pub fn record(args: &[String]) {
 			};
 			prev = if is_pair(subject) { x[0][0].as_i64().unwrap() } else { x[0].as_i64().unwrap() };
 			let r = m.next(emb, &x);
-			tw.ev(json!({"ev":"next","x":x,"y":rank_units(subject, emb, &r)}));
+			if r.is_err() {
+				tw.ev(json!({"ev":"next","x":x,"y":rank_units(subject, emb, &r),"panic":true}));
+			} else {
+				tw.ev(json!({"ev":"next","x":x,"y":rank_units(subject, emb, &r)}));
+			}
 			if r.is_err() {
 				break;
 			}
